@@ -176,8 +176,11 @@ def nested_finding_registered():
         with open(os.path.join(VERIF, "KNOWN_FINDINGS.jsonl")) as fh:
             for line in fh:
                 line = line.strip()
-                if line:
-                    rec = json.loads(line)
+                if line and not line.startswith("#"):
+                    try:
+                        rec = json.loads(line)
+                    except ValueError:
+                        continue
                     if rec.get("property") == "C06" and rec.get("signature") == NESTED_SIGNATURE:
                         return True
     except (OSError, ValueError):
